@@ -125,6 +125,351 @@ theorem mem_bindsDict (x : Str) : ∀ items : List DictItem,
       simp only [dkB, dvB, List.flatMap_cons, List.mem_append, Spec.bindsDict] at ih ⊢
       rw [← ih]; constructor <;> (intro h; rcases h with (h | h) | h | h <;> simp [h]) <;> simp_all
 
+theorem mem_insAll {x : Str} : ∀ {ys l : List Str}, x ∈ insAll ys l ↔ x ∈ ys ∨ x ∈ l
+  | [], l => by simp [insAll]
+  | y :: ys, l => by
+      have ih := @mem_insAll x ys (ins y l)
+      simp only [insAll, List.foldl_cons] at ih ⊢
+      rw [ih, mem_ins]; simp only [List.mem_cons]
+      constructor
+      · rintro (h | h | h)
+        · exact Or.inl (Or.inr h)
+        · exact Or.inl (Or.inl h)
+        · exact Or.inr h
+      · rintro ((h | h) | h)
+        · exact Or.inr (Or.inl h)
+        · exact Or.inl h
+        · exact Or.inr (Or.inr h)
+
+theorem mem_minus {x : Str} {l r : List Str} : x ∈ Spec.minus l r ↔ x ∈ l ∧ x ∉ r := by
+  simp [Spec.minus]
+
+theorem mem_fiParams {x : Str} (a : Args) : x ∈ a.fiParams ↔ x ∈ Spec.paramNames a := by
+  cases a with
+  | mk po ar va ko kd kw de =>
+    simp only [Args.fiParams, Spec.paramNames, List.mem_append]
+    constructor <;> (intro h; rcases h with (((h | h) | h) | h) | h <;> simp [h])
+
+macro "nsunf" h:ident : tactic =>
+  `(tactic| simp only [Expr.all, allOpt, allList, allOptList, allKeywords, allDict, allComps, allArgs, noStoreLocal,
+      Bool.and_eq_true, Bool.true_and, Bool.and_true, and_assoc, Bool.false_eq_true, false_and] at $h:ident)
+
+mutual
+/-- an expression that binds nothing binds nothing -/
+theorem bindsE_noStore : ∀ (e : Expr), e.all noStoreLocal = true → Spec.bindsE e = []
+  | .name id ctx, h => by cases ctx <;> simp [Expr.all, noStoreLocal, Spec.bindsE] at h ⊢
+  | .const _ _, _ => by simp [Spec.bindsE]
+  | .attribute v _, h => by nsunf h; simp [Spec.bindsE, bindsE_noStore v h]
+  | .subscript v sl, h => by nsunf h; simp [Spec.bindsE, bindsE_noStore v h.1, bindsE_noStore sl h.2]
+  | .slice lo hi st, h => by
+      nsunf h; simp [Spec.bindsE, bindsOpt_noStore lo h.1, bindsOpt_noStore hi h.2.1, bindsOpt_noStore st h.2.2]
+  | .call f args kws, h => by
+      nsunf h
+      simp [Spec.bindsE, bindsE_noStore f h.1, bindsList_noStore args h.2.1, bindsKeywords_noStore kws h.2.2]
+  | .unaryOp _ e, h => by nsunf h; simp [Spec.bindsE, bindsE_noStore e h]
+  | .binOp l _ r, h => by nsunf h; simp [Spec.bindsE, bindsE_noStore l h.1, bindsE_noStore r h.2]
+  | .boolOp _ vs, h => by nsunf h; simp [Spec.bindsE, bindsList_noStore vs h]
+  | .compare l _ cs, h => by nsunf h; simp [Spec.bindsE, bindsE_noStore l h.1, bindsList_noStore cs h.2]
+  | .ifExp t b o, h => by
+      nsunf h; simp [Spec.bindsE, bindsE_noStore t h.1, bindsE_noStore b h.2.1, bindsE_noStore o h.2.2]
+  | .lambda a _, h => by nsunf h; simp [Spec.bindsE, bindsArgs_noStore a h.1]
+  | .tuple es, h => by nsunf h; simp [Spec.bindsE, bindsList_noStore es h]
+  | .list es, h => by nsunf h; simp [Spec.bindsE, bindsList_noStore es h]
+  | .set es, h => by nsunf h; simp [Spec.bindsE, bindsList_noStore es h]
+  | .dict items, h => by nsunf h; simp [Spec.bindsE, bindsDict_noStore items h]
+  | .listComp e gs, h => by nsunf h; simp [Spec.bindsE, bindsE_noStore e h.1, bindsComps_noStore gs h.2]
+  | .setComp e gs, h => by nsunf h; simp [Spec.bindsE, bindsE_noStore e h.1, bindsComps_noStore gs h.2]
+  | .generatorExp e gs, h => by nsunf h; simp [Spec.bindsE, bindsE_noStore e h.1, bindsComps_noStore gs h.2]
+  | .dictComp k v gs, h => by
+      nsunf h; simp [Spec.bindsE, bindsE_noStore k h.1, bindsE_noStore v h.2.1, bindsComps_noStore gs h.2.2]
+  | .joinedStr _ vs, h => by nsunf h; simp [Spec.bindsE, bindsList_noStore vs h]
+  | .formattedValue v _ spec, h => by nsunf h; simp [Spec.bindsE, bindsE_noStore v h.1, bindsOpt_noStore spec h.2]
+  | .starred v, h => by nsunf h; simp [Spec.bindsE, bindsE_noStore v h]
+  | .namedExpr _ _, h => by nsunf h
+  | .await v, h => by nsunf h; simp [Spec.bindsE, bindsE_noStore v h]
+  | .yield v, h => by nsunf h; simp [Spec.bindsE, bindsOpt_noStore v h]
+  | .yieldFrom v, h => by nsunf h; simp [Spec.bindsE, bindsE_noStore v h]
+theorem bindsOpt_noStore : ∀ (o : Option Expr), allOpt noStoreLocal o = true → Spec.bindsOpt o = []
+  | none, _ => by simp [Spec.bindsOpt]
+  | some e, h => by nsunf h; simp [Spec.bindsOpt, bindsE_noStore e h]
+theorem bindsList_noStore : ∀ (es : List Expr), allList noStoreLocal es = true → Spec.bindsList es = []
+  | [], _ => by simp [Spec.bindsList]
+  | e :: es, h => by nsunf h; simp [Spec.bindsList, bindsE_noStore e h.1, bindsList_noStore es h.2]
+theorem bindsOptList_noStore : ∀ (es : List (Option Expr)), allOptList noStoreLocal es = true →
+    Spec.bindsOptList es = []
+  | [], _ => by simp [Spec.bindsOptList]
+  | none :: es, h => by nsunf h; simp [Spec.bindsOptList, bindsOptList_noStore es h]
+  | some e :: es, h => by nsunf h; simp [Spec.bindsOptList, bindsE_noStore e h.1, bindsOptList_noStore es h.2]
+theorem bindsKeywords_noStore : ∀ (ks : List Keyword), allKeywords noStoreLocal ks = true →
+    Spec.bindsKeywords ks = []
+  | [], _ => by simp [Spec.bindsKeywords]
+  | .mk _ v :: ks, h => by nsunf h; simp [Spec.bindsKeywords, bindsE_noStore v h.1, bindsKeywords_noStore ks h.2]
+theorem bindsDict_noStore : ∀ (items : List DictItem), allDict noStoreLocal items = true → Spec.bindsDict items = []
+  | [], _ => by simp [Spec.bindsDict]
+  | .mk none v :: r, h => by
+      nsunf h; simp [Spec.bindsDict, Spec.bindsOpt, bindsE_noStore v h.1, bindsDict_noStore r h.2]
+  | .mk (some k) v :: r, h => by
+      nsunf h
+      simp [Spec.bindsDict, Spec.bindsOpt, bindsE_noStore k h.1, bindsE_noStore v h.2.1, bindsDict_noStore r h.2.2]
+theorem bindsComps_noStore : ∀ (gs : List Comp), allComps noStoreLocal gs = true → Spec.bindsComps gs = []
+  | [], _ => by simp [Spec.bindsComps]
+  | .mk t i ifs _ :: gs, h => by
+      nsunf h
+      simp [Spec.bindsComps, bindsE_noStore i h.2.1, bindsList_noStore ifs h.2.2.1, bindsComps_noStore gs h.2.2.2]
+theorem bindsArgs_noStore : ∀ (a : Args), allArgs noStoreLocal a = true → Spec.bindsArgs a = []
+  | .mk _ _ _ _ kwDefaults _ defaults, h => by
+      nsunf h; simp [Spec.bindsArgs, bindsOptList_noStore kwDefaults h.1, bindsList_noStore defaults h.2]
+end
+
+/-- the effect of visiting name-binding-free syntax with free names `free` *inside a function* (`in_function`):
+nothing is declared, reads that are not locals of the enclosing functions become undeclared -/
+structure InvF (free : List Str) (s s' : FI) : Prop where
+  locals : s'.locals = s.locals
+  decl : s'.declared = s.declared
+  mono : ∀ x, x ∈ s.undeclared → x ∈ s'.undeclared
+  sound : ∀ x, x ∈ s'.undeclared → x ∈ s.undeclared ∨ (x ∈ free ∧ x ∉ reserved ∧ x ∉ s.locals)
+  complete : ∀ x, x ∈ free → x ∈ reserved ∨ x ∈ s'.undeclared ∨ x ∈ s.declared ∨ x ∈ s.locals
+
+theorem InvF.refl (s : FI) : InvF [] s s := ⟨rfl, rfl, fun _ h => h, fun _ h => Or.inl h, by simp⟩
+
+theorem InvF.seq {f1 f2 : List Str} {s s1 s2 : FI} (h1 : InvF f1 s s1) (h2 : InvF f2 s1 s2) :
+    InvF (f1 ++ f2) s s2 where
+  locals := by rw [h2.locals, h1.locals]
+  decl := by rw [h2.decl, h1.decl]
+  mono x hx := h2.mono x (h1.mono x hx)
+  sound x hx := by
+    rcases h2.sound x hx with h | ⟨h, hr, hl⟩
+    · rcases h1.sound x h with h | ⟨h, hr, hl⟩
+      · exact Or.inl h
+      · exact Or.inr ⟨by simp [h], hr, hl⟩
+    · exact Or.inr ⟨by simp [h], hr, h1.locals ▸ hl⟩
+  complete x hx := by
+    rcases List.mem_append.mp hx with h | h
+    · rcases h1.complete x h with h | h | h | h
+      · exact Or.inl h
+      · exact Or.inr (Or.inl (h2.mono x h))
+      · exact Or.inr (Or.inr (Or.inl h))
+      · exact Or.inr (Or.inr (Or.inr h))
+    · rcases h2.complete x h with h | h | h | h
+      · exact Or.inl h
+      · exact Or.inr (Or.inl h)
+      · exact Or.inr (Or.inr (Or.inl (h1.decl ▸ h)))
+      · exact Or.inr (Or.inr (Or.inr (h1.locals ▸ h)))
+
+theorem InvF.congr {f f' : List Str} {s s' : FI} (h : InvF f s s') (hf : ∀ x, x ∈ f ↔ x ∈ f') : InvF f' s s' where
+  locals := h.locals
+  decl := h.decl
+  mono := h.mono
+  sound x hx := by
+    rcases h.sound x hx with h' | ⟨h', hr, hl⟩
+    · exact Or.inl h'
+    · exact Or.inr ⟨(hf x).mp h', hr, hl⟩
+  complete x hx := h.complete x ((hf x).mpr hx)
+
+/-- outside any function the function-level invariant gives the block-level one (nothing is bound) -/
+theorem InvF.toInv {f : List Str} {s s' : FI} (h : InvF f s s') : Inv f [] s s' where
+  locals := h.locals
+  decl x := by rw [h.decl]; simp
+  mono := h.mono
+  sound x hx := by
+    rcases h.sound x hx with h' | ⟨h', hr, _⟩
+    · exact Or.inl h'
+    · exact Or.inr ⟨h', hr⟩
+  complete x hx := by
+    rcases h.complete x hx with h' | h' | h' | h'
+    · exact Or.inl h'
+    · exact Or.inr (Or.inl h')
+    · exact Or.inr (Or.inr (Or.inl (h.decl ▸ h')))
+    · exact Or.inr (Or.inr (Or.inr h'))
+
+/-- `_visit_function` around a body that satisfies the function-level invariant: the parameters are locals inside,
+the set of locals is restored afterwards -/
+theorem invF_function {F P P' : List Str} {s sOut : FI}
+    (h : InvF F { s with locals := insAll P s.locals } sOut) (hP : ∀ x, x ∈ P ↔ x ∈ P') :
+    InvF (Spec.minus F P') s { sOut with locals := s.locals } where
+  locals := rfl
+  decl := h.decl
+  mono := h.mono
+  sound x hx := by
+    rcases h.sound x hx with h' | ⟨h', hr, hl⟩
+    · exact Or.inl h'
+    · have hl' : x ∉ P ∧ x ∉ s.locals := by simpa [mem_insAll] using hl
+      exact Or.inr ⟨mem_minus.mpr ⟨h', fun hp => hl'.1 ((hP x).mpr hp)⟩, hr, hl'.2⟩
+  complete x hx := by
+    obtain ⟨hf, hp⟩ := mem_minus.mp hx
+    rcases h.complete x hf with h' | h' | h' | h'
+    · exact Or.inl h'
+    · exact Or.inr (Or.inl h')
+    · exact Or.inr (Or.inr (Or.inl h'))
+    · rcases mem_insAll.mp h' with h'' | h''
+      · exact absurd ((hP x).mp h'') hp
+      · exact Or.inr (Or.inr (Or.inr h''))
+
+theorem invF_name (hv : FIVisitors) (id : Str) (s : FI) :
+    InvF (Spec.freeE [] (.name id .load)) s (fiExpr true (.name id .load) s) := by
+  simp only [fiExpr, hv.name, if_true, fiName, Spec.freeE, reduceCtorEq, if_false, List.contains_nil,
+    Bool.not_false, Bool.and_true, decide_true]
+  split
+  · rename_i h
+    simp only [Bool.and_eq_true, Bool.not_eq_true', List.contains_eq_mem, decide_eq_false_iff_not] at h
+    exact ⟨rfl, rfl, fun x hx => mem_ins.mpr (Or.inr hx),
+      fun x hx => by
+        rcases mem_ins.mp hx with rfl | hx
+        · exact Or.inr ⟨by simp, h.1.1, h.2⟩
+        · exact Or.inl hx,
+      fun x hx => by
+        have : x = id := by simpa using hx
+        subst this; exact Or.inr (Or.inl (mem_ins.mpr (Or.inl rfl)))⟩
+  · rename_i h
+    refine ⟨rfl, rfl, fun _ hx => hx, fun _ hx => Or.inl hx, fun x hx => ?_⟩
+    have : x = id := by simpa using hx
+    subst this
+    simp only [Bool.and_eq_true, Bool.not_eq_true', List.contains_eq_mem, decide_eq_false_iff_not, not_and,
+      Decidable.not_not] at h
+    by_cases h1 : x ∈ reserved
+    · exact Or.inl h1
+    · by_cases h2 : x ∈ s.declared
+      · exact Or.inr (Or.inr (Or.inl h2))
+      · exact Or.inr (Or.inr (Or.inr (h ⟨h1, h2⟩)))
+
+theorem mem_freeDict' (x : Str) (items : List DictItem) :
+    x ∈ dkF items ++ dvF items ↔ x ∈ Spec.freeDict [] items := mem_freeDict x items
+
+macro "ffunf" h:ident g:ident : tactic =>
+  `(tactic| (simp only [Expr.all, allOpt, allList, allKeywords, allDict, allArgs, allOptList, flatLocal,
+      Bool.and_eq_true, Bool.true_and, Bool.and_true, and_assoc, Bool.false_eq_true, false_and] at $h:ident
+             simp only [Expr.all, allOpt, allList, allKeywords, allDict, allArgs, allOptList, noStoreLocal,
+      Bool.and_eq_true, Bool.true_and, Bool.and_true, and_assoc, Bool.false_eq_true, false_and] at $g:ident))
+
+macro "fsunf" : tactic =>
+  `(tactic| simp only [fiExpr, fiOpt, fiList, fiKeywords, fiDictKeys, fiDictValues, Spec.freeE, Spec.freeOpt,
+      Spec.freeList, Spec.freeKeywords, dkF, dvF, List.flatMap_cons, List.flatMap_nil, List.append_nil])
+
+theorem freeArgs_noDefaults (a : Args) (h : a.noDefaults = true) : Spec.freeArgs [] a = [] := by
+  cases a with
+  | mk po ar va ko kd kw de =>
+    simp only [Args.noDefaults, Bool.and_eq_true, List.isEmpty_iff] at h
+    obtain ⟨rfl, hk⟩ := h
+    simp only [Spec.freeArgs, Spec.freeList, List.append_nil]
+    induction kd with
+    | nil => rfl
+    | cons d r ih =>
+      simp only [List.all_cons, Bool.and_eq_true] at hk
+      cases d with
+      | none => simpa [Spec.freeOptList] using ih hk.2
+      | some e => simp at hk
+
+theorem bindsArgs_noDefaults (a : Args) (h : a.noDefaults = true) : Spec.bindsArgs a = [] := by
+  cases a with
+  | mk po ar va ko kd kw de =>
+    simp only [Args.noDefaults, Bool.and_eq_true, List.isEmpty_iff] at h
+    obtain ⟨rfl, hk⟩ := h
+    simp only [Spec.bindsArgs, Spec.bindsList, List.append_nil]
+    induction kd with
+    | nil => rfl
+    | cons d r ih =>
+      simp only [List.all_cons, Bool.and_eq_true] at hk
+      cases d with
+      | none => simpa [Spec.bindsOptList] using ih hk.2
+      | some e => simp at hk
+
+mutual
+/-- inside a function: expressions of the guard that bind nothing -/
+theorem invF_expr (hv : FIVisitors) : ∀ (e : Expr) (s : FI), e.all flatLocal = true → e.all noStoreLocal = true →
+    InvF (Spec.freeE [] e) s (fiExpr true e s)
+  | .name id ctx, s, _, g => by
+      cases ctx with
+      | load => exact invF_name hv id s
+      | store => simp [Expr.all, noStoreLocal] at g
+      | del => simp [Expr.all, noStoreLocal] at g
+  | .const _ _, s, _, _ => by fsunf; exact InvF.refl s
+  | .attribute v _, s, h, g => by ffunf h g; fsunf; exact invF_expr hv v s h g
+  | .subscript v sl, s, h, g => by
+      ffunf h g; fsunf; exact (invF_expr hv v s h.1 g.1).seq (invF_expr hv sl _ h.2 g.2)
+  | .slice lo hi st, s, h, g => by
+      ffunf h g; fsunf
+      exact ((invF_opt hv lo s h.1 g.1).seq (invF_opt hv hi _ h.2.1 g.2.1)).seq (invF_opt hv st _ h.2.2 g.2.2)
+  | .call f args kws, s, h, g => by
+      ffunf h g; fsunf
+      exact ((invF_expr hv f s h.1 g.1).seq (invF_list hv args _ h.2.1 g.2.1)).seq
+        (invF_keywords hv kws _ h.2.2 g.2.2)
+  | .unaryOp _ e, s, h, g => by ffunf h g; fsunf; exact invF_expr hv e s h g
+  | .binOp l _ r, s, h, g => by
+      ffunf h g; fsunf; exact (invF_expr hv l s h.1 g.1).seq (invF_expr hv r _ h.2 g.2)
+  | .boolOp _ vs, s, h, g => by ffunf h g; fsunf; exact invF_list hv vs s h g
+  | .compare l _ cs, s, h, g => by
+      ffunf h g; fsunf; exact (invF_expr hv l s h.1 g.1).seq (invF_list hv cs _ h.2 g.2)
+  | .ifExp t b o, s, h, g => by
+      ffunf h g; fsunf
+      exact ((invF_expr hv t s h.1 g.1).seq (invF_expr hv b _ h.2.1 g.2.1)).seq (invF_expr hv o _ h.2.2 g.2.2)
+  | .lambda a b, s, h, g => by
+      ffunf h g
+      have hb := invF_expr hv b { s with locals := insAll a.fiParams s.locals } h.2.2.2 g.2
+      have hbinds := bindsE_noStore b h.2.1
+      simp only [fiExpr, hv.lambda, if_true, Spec.freeE, freeArgs_noDefaults a h.1, List.nil_append, hbinds,
+        List.append_nil]
+      exact invF_function hb (fun x => mem_fiParams a)
+  | .tuple es, s, h, g => by ffunf h g; fsunf; exact invF_list hv es s h g
+  | .list es, s, h, g => by ffunf h g; fsunf; exact invF_list hv es s h g
+  | .set es, s, h, g => by ffunf h g; fsunf; exact invF_list hv es s h g
+  | .dict items, s, h, g => by
+      ffunf h g; simp only [fiExpr, Spec.freeE]
+      exact ((invF_dictKeys hv items s h g).seq (invF_dictValues hv items _ h g)).congr
+        (fun x => mem_freeDict x items)
+  | .listComp _ _, _, h, _ => by simp [Expr.all, flatLocal] at h
+  | .setComp _ _, _, h, _ => by simp [Expr.all, flatLocal] at h
+  | .generatorExp _ _, _, h, _ => by simp [Expr.all, flatLocal] at h
+  | .dictComp _ _ _, _, h, _ => by simp [Expr.all, flatLocal] at h
+  | .joinedStr _ vs, s, h, g => by ffunf h g; fsunf; exact invF_list hv vs s h g
+  | .formattedValue v _ spec, s, h, g => by
+      ffunf h g; fsunf; exact (invF_expr hv v s h.1 g.1).seq (invF_opt hv spec _ h.2 g.2)
+  | .starred v, s, h, g => by ffunf h g; fsunf; exact invF_expr hv v s h g
+  | .namedExpr _ _, _, _, g => by simp [Expr.all, noStoreLocal] at g
+  | .await v, s, h, g => by ffunf h g; fsunf; exact invF_expr hv v s h g
+  | .yield v, s, h, g => by ffunf h g; fsunf; exact invF_opt hv v s h g
+  | .yieldFrom v, s, h, g => by ffunf h g; fsunf; exact invF_expr hv v s h g
+theorem invF_opt (hv : FIVisitors) : ∀ (o : Option Expr) (s : FI), allOpt flatLocal o = true →
+    allOpt noStoreLocal o = true → InvF (Spec.freeOpt [] o) s (fiOpt true o s)
+  | none, s, _, _ => by fsunf; exact InvF.refl s
+  | some e, s, h, g => by ffunf h g; fsunf; exact invF_expr hv e s h g
+theorem invF_list (hv : FIVisitors) : ∀ (es : List Expr) (s : FI), allList flatLocal es = true →
+    allList noStoreLocal es = true → InvF (Spec.freeList [] es) s (fiList true es s)
+  | [], s, _, _ => by fsunf; exact InvF.refl s
+  | e :: es, s, h, g => by
+      ffunf h g; fsunf; exact (invF_expr hv e s h.1 g.1).seq (invF_list hv es _ h.2 g.2)
+theorem invF_keywords (hv : FIVisitors) : ∀ (ks : List Keyword) (s : FI), allKeywords flatLocal ks = true →
+    allKeywords noStoreLocal ks = true → InvF (Spec.freeKeywords [] ks) s (fiKeywords true ks s)
+  | [], s, _, _ => by fsunf; exact InvF.refl s
+  | .mk _ v :: ks, s, h, g => by
+      ffunf h g; fsunf; exact (invF_expr hv v s h.1 g.1).seq (invF_keywords hv ks _ h.2 g.2)
+theorem invF_dictKeys (hv : FIVisitors) : ∀ (items : List DictItem) (s : FI), allDict flatLocal items = true →
+    allDict noStoreLocal items = true → InvF (dkF items) s (fiDictKeys true items s)
+  | [], s, _, _ => by fsunf; exact InvF.refl s
+  | .mk none _ :: r, s, h, g => by
+      ffunf h g
+      have ih := invF_dictKeys hv r s h.2 g.2
+      simp only [dkF] at ih
+      fsunf; simpa using ih
+  | .mk (some k) _ :: r, s, h, g => by
+      ffunf h g
+      have ih := invF_dictKeys hv r (fiExpr true k s) h.2.2 g.2.2
+      simp only [dkF] at ih
+      fsunf; exact (invF_expr hv k s h.1 g.1).seq ih
+theorem invF_dictValues (hv : FIVisitors) : ∀ (items : List DictItem) (s : FI), allDict flatLocal items = true →
+    allDict noStoreLocal items = true → InvF (dvF items) s (fiDictValues true items s)
+  | [], s, _, _ => by fsunf; exact InvF.refl s
+  | .mk none v :: r, s, h, g => by
+      ffunf h g
+      have ih := invF_dictValues hv r (fiExpr true v s) h.2 g.2
+      simp only [dvF] at ih
+      fsunf; exact (invF_expr hv v s h.1 g.1).seq ih
+  | .mk (some _) v :: r, s, h, g => by
+      ffunf h g
+      have ih := invF_dictValues hv r (fiExpr true v s) h.2.2 g.2.2
+      simp only [dvF] at ih
+      fsunf; exact (invF_expr hv v s h.2.1 g.2.1).seq ih
+end
+
 macro "funf" h:ident : tactic =>
   `(tactic| simp only [Expr.all, allOpt, allList, allKeywords, allDict, flatLocal, flatE, Bool.and_eq_true,
       Bool.true_and, Bool.and_true, and_assoc, Bool.false_eq_true, false_and] at $h:ident)
@@ -159,7 +504,14 @@ theorem inv_expr (hv : FIVisitors) : ∀ (e : Expr) (s : FI), e.all flatLocal = 
   | .ifExp t b o, s, h => by
       funf h; sunf
       exact ((inv_expr hv t s h.1).seq (inv_expr hv b _ h.2.1)).seq (inv_expr hv o _ h.2.2)
-  | .lambda _ _, _, h => by funf h
+  | .lambda a b, s, h => by
+      simp only [Expr.all, allArgs, flatLocal, Bool.and_eq_true, and_assoc] at h
+      have hb := invF_expr hv b { s with locals := insAll a.fiParams s.locals } h.2.2.2 h.2.1
+      have hbinds := bindsE_noStore b h.2.1
+      have hargs := bindsArgs_noDefaults a h.1
+      simp only [fiExpr, hv.lambda, if_true, Spec.freeE, Spec.bindsE, freeArgs_noDefaults a h.1, List.nil_append,
+        hbinds, List.append_nil, hargs]
+      exact (invF_function hb (fun x => mem_fiParams a)).toInv
   | .tuple es, s, h => by funf h; sunf; exact inv_list hv es s h
   | .list es, s, h => by funf h; sunf; exact inv_list hv es s h
   | .set es, s, h => by funf h; sunf; exact inv_list hv es s h
